@@ -11,7 +11,8 @@ PRINTER_CRATES = ("artifact_content", "graphql_network_protocol", "isograph_sche
 # user-controlled text, by the type that carries it, and the lexical contexts of generated JS/TS in which the
 # raw text can change the lexical structure (no sanitiser exists in the repository today)
 DANGEROUS = {
-    "StringLiteralValue": {SQ, BT, BLOCK, LINE, CODE},       # raw body of an iso "..." literal: may contain ' ` \\
+    "StringLiteralValue": {SQ, BT, BLOCK, LINE},             # raw body of an iso "..." literal: may contain ' ` \\ (code context:
+                                                             # directive field paths, expected to be identifiers - not judged)
     "QueryText": {SQ, DQ, BT, BLOCK, LINE},                  # embeds string literal bodies between double quotes
     "DescriptionValue": {SQ, DQ, BT, BLOCK, LINE, CODE},     # arbitrary block-string text
     "Description": {SQ, DQ, BT, BLOCK, LINE, CODE},
